@@ -39,8 +39,16 @@ def _coerce_terms(terms, ctype):
     return {k: conv(v) for k, v in terms.items()}
 
 
+def _scale(case):
+    """coefficient scale of the case: a power of two (so that scaling is exact in double arithmetic). The function
+    identities are compared relative to it - a coefficient of size 1e-21 is as much a coefficient as one of size 1."""
+    return case.get("scale") or 1
+
+
 def _build(case):
     terms = _coerce_terms(case["terms"], case.get("ctype"))
+    if case.get("scale"):
+        terms = {k: v * case["scale"] for k, v in terms.items()}
     return dict(terms) if case["type"] == "dict" else cls_of(case["type"])(terms)
 
 
@@ -147,6 +155,9 @@ def _gen_subvalue(form):
                     if rng.random() < 0.25:          # a label that does not occur in G
                         values[7 if T in MATRIX_TYPES else 'zz'] = rng.choice(dom)
                     yield {"form": form, "type": T, "kind": kind, "terms": terms, "values": values}
+                    if rng.random() < 0.12:      # the same model at a very small / very large coefficient scale
+                        yield {"form": form, "type": T, "kind": kind, "terms": terms, "values": values,
+                               "scale": rng.choice([2.0 ** -70, 2.0 ** -55, 2.0 ** 45])}
     return gen
 
 
@@ -176,8 +187,8 @@ def _check_subvalue_fn(case):
         for x in assignments(rest, _spin(case)):
             ext = dict(x)
             ext.update(vals)
-            want = peval(before, ext)
-            have = peval(gnum, x)
+            want = peval(before, ext) / _scale(case)
+            have = peval(gnum, x) / _scale(case)
             if not close(have, want, 1e-9):
                 return Fail("at %r (values %r): result gives %r, G at the extended assignment gives %r; result %r"
                             % (x, vals, have, want, got), key="function-differs", observed=have, required=want)
@@ -276,6 +287,9 @@ def _gen_subgraph(form):
                         pool = list(dom) * 2 + [2, -3, 0.5, 0]
                         con = {l: rng.choice(pool) for l in labels if rng.random() < 0.6}   # may mention nodes too
                     yield {"form": form, "type": T, "kind": kind, "terms": terms, "nodes": nodes, "connections": con}
+                    if rng.random() < 0.12:
+                        yield {"form": form, "type": T, "kind": kind, "terms": terms, "nodes": nodes, "connections": con,
+                               "scale": rng.choice([2.0 ** -70, 2.0 ** -55, 2.0 ** 45])}
     return gen
 
 
@@ -306,8 +320,8 @@ def _check_subgraph(case):
         for x in assignments(nodes, _spin(case)):
             ext = {v: con.get(v, 0) for v in outside}
             ext.update(x)
-            want = peval(noconst, ext)
-            have = peval(gnum, x)
+            want = peval(noconst, ext) / _scale(case)
+            have = peval(gnum, x) / _scale(case)
             if not close(have, want, 1e-9):
                 return Fail("nodes %r at %r, connections %r: subgraph gives %r, G without constant with outside "
                             "variables fixed gives %r; result %r" % (nodes, x, con, have, want, got),
